@@ -57,6 +57,7 @@ def main():
         j["counters_global"] = {k: c1[k] - c0.get(k, 0) for k in c1}
         j["lock_edges"] = sorted("%s -> %s" % k for k in instr.LM.edges)
         j["event_kinds"] = dict(instr.LOG.kinds)
+        j["recycle"] = bool(harness.need_recycle())  # this process ends after the case: the parent must not reuse it
         instr.LOG.kinds = {}
         out.write(json.dumps(j, default=repr) + "\n")
         out.flush()
